@@ -629,3 +629,129 @@ func snapshotDiffers(v ssa.Value, k, c string) bool {
 	}
 	return false
 }
+
+// condWakersComplete: a goroutine that waits on a condition variable for a list to become
+// non-empty is woken by EVERY place that adds to that list.  For each Cond.Wait loop the
+// slice fields whose length the loop tests are collected; every store elsewhere in the
+// package that grows one of them (`x = append(x, e)`) must be followed, on every path to the
+// function's return, by a Broadcast/Signal on that condition variable.  A wake-up that was made
+// conditional ("only when this is the first pipe") strands work that was queued while the
+// waiter was parked for a different reason.
+func condWakersComplete(p *Prog, r *Report, R string, inPkg func(rel string) bool) {
+	r.Describe(R, "every growth of a list a Cond.Wait loop waits on is followed by a wake-up on that condition variable on every path (no conditional wake-ups)")
+	q := NewQ(p, r)
+	type waitInfo struct {
+		cond   string
+		fields map[string]bool
+		fn     *ssa.Function
+	}
+	var waits []waitInfo
+	for _, fn := range p.Funcs {
+		rel, _ := p.FuncRel(fn)
+		if !inPkg(rel) {
+			continue
+		}
+		EachInstr(fn, func(in ssa.Instruction) {
+			c := CallOf(in)
+			if c == nil || !CalleeIs(c, "sync", "Cond", "Wait") {
+				return
+			}
+			_, body := loopBody(in.Block())
+			if body == nil {
+				return
+			}
+			wi := waitInfo{cond: condKey(c.Args[0]), fields: map[string]bool{}, fn: fn}
+			for b := range body {
+				iff, ok := b.Instrs[len(b.Instrs)-1].(*ssa.If)
+				if !ok {
+					continue
+				}
+				var leaves func(v ssa.Value, d int)
+				leaves = func(v ssa.Value, d int) {
+					if d > 5 {
+						return
+					}
+					switch x := v.(type) {
+					case *ssa.BinOp:
+						leaves(x.X, d+1)
+						leaves(x.Y, d+1)
+					case *ssa.UnOp:
+						if x.Op == token.NOT {
+							leaves(x.X, d+1)
+						}
+					case *ssa.Phi:
+						for _, e := range x.Edges {
+							leaves(e, d+1)
+						}
+					case *ssa.Call:
+						if bl, ok := x.Call.Value.(*ssa.Builtin); ok && bl.Name() == "len" {
+							if u, ok := x.Call.Args[0].(*ssa.UnOp); ok && u.Op == token.MUL {
+								if fa, ok := u.X.(*ssa.FieldAddr); ok {
+									if _, isSlice := u.Type().Underlying().(*types.Slice); isSlice {
+										if k := fieldKeyOf(fa); k != "" {
+											wi.fields[k] = true
+										}
+									}
+								}
+							}
+						}
+					}
+				}
+				leaves(iff.Cond, 0)
+			}
+			if len(wi.fields) > 0 {
+				waits = append(waits, wi)
+			}
+		})
+	}
+	n := 0
+	for _, wi := range waits {
+		for _, fn := range p.Funcs {
+			rel, _ := p.FuncRel(fn)
+			if !inPkg(rel) || fn == wi.fn {
+				continue
+			}
+			var wakes Sel
+			var grows []*ssa.Store
+			EachInstr(fn, func(in ssa.Instruction) {
+				if c := CallOf(in); c != nil && (CalleeIs(c, "sync", "Cond", "Broadcast") || CalleeIs(c, "sync", "Cond", "Signal")) && condKey(c.Args[0]) == wi.cond {
+					wakes = append(wakes, &Ev{Kind: "call", In: in, Fn: fn})
+				}
+				st, ok := in.(*ssa.Store)
+				if !ok {
+					return
+				}
+				fa, ok := st.Addr.(*ssa.FieldAddr)
+				if !ok || !wi.fields[fieldKeyOf(fa)] {
+					return
+				}
+				// growth: append(<the same field>, elems…) with the field unsliced
+				if call, ok := st.Val.(*ssa.Call); ok {
+					if bl, ok := call.Call.Value.(*ssa.Builtin); ok && bl.Name() == "append" {
+						if u, ok := call.Call.Args[0].(*ssa.UnOp); ok && u.Op == token.MUL {
+							if fa2, ok := u.X.(*ssa.FieldAddr); ok && fieldKeyOf(fa2) == fieldKeyOf(fa) {
+								grows = append(grows, st)
+							}
+						}
+					}
+				}
+			})
+			for i, st := range grows {
+				n++
+				fa := st.Addr.(*ssa.FieldAddr)
+				key := fmt.Sprintf("%s/grows(%s)#%d->%s", p.FuncName(fn), fieldKeyOf(fa), i+1, wi.cond)
+				ok := false
+				why := "no wake-up on " + wi.cond + " in this function"
+				if len(wakes) > 0 {
+					var where string
+					ok, where = q.mustPass(st, wakes)
+					if !ok {
+						why = "a path from here reaches the return at " + where + " without a wake-up on " + wi.cond
+					}
+				}
+				r.Check(ok, R, key, p.InstrPos(st), "followed by a wake-up on every path", p.FuncName(fn)+" adds to "+fieldKeyOf(fa)+", which "+p.FuncName(wi.fn)+" waits for, but "+why+": the waiter stays parked although there is work for it")
+			}
+		}
+	}
+	r.Count("e4c.list_growths_with_waiters", n)
+}
